@@ -205,6 +205,18 @@ func checkC13(c *hx.Checker) {
 	ew, _ := ref.Unary("Relu", wInit)
 	jobs = append(jobs, job{newModelCase(mi, map[string]*ref.T{"a": good["a"]}, "outputs", map[string]*ref.T{"y_a": ea, "y_w": ew}, hx.Num, ""), "init-input/not-supplied", []string{"initializer-input"}, true})
 	jobs = append(jobs, job{newModelCase(mi, map[string]*ref.T{}, "error", nil, hx.Num, ""), "init-input/required-missing", []string{"initializer-input", "missing-input"}, true})
+	// the defaulted input left out AND the other input wrong (rank, fixed extent): refused whichever of the two the
+	// validation meets first; several defaulted inputs around a required one
+	for _, bad := range [][]int{{2, 2}, {3, 3}, {2}, {2, 3, 1}, {}} {
+		jobs = append(jobs, job{newModelCase(mi, map[string]*ref.T{"a": ref.Distinct(ref.F32, bad)}, "error", nil, hx.Num, ""), fmt.Sprintf("init-input/not-supplied/other-input%v", bad), []string{"initializer-input", "wrong-shape"}, true})
+	}
+	{
+		mi3 := reluModel(map[string][]int64{"a": {2, 3}, "v": {2, 3}, "w": {2, 3}, "z": {2, 3}}, map[string]*ref.T{"v": wInit, "w": wInit, "z": wInit})
+		for _, bad := range [][]int{{2, 2}, {2}, {2, 3, 1}} {
+			jobs = append(jobs, job{newModelCase(mi3, map[string]*ref.T{"a": ref.Distinct(ref.F32, bad)}, "error", nil, hx.Num, ""), fmt.Sprintf("init-input/three-defaults/other-input%v", bad), []string{"initializer-input", "wrong-shape"}, true})
+		}
+		jobs = append(jobs, job{newModelCase(mi3, map[string]*ref.T{}, "error", nil, hx.Num, ""), "init-input/three-defaults/required-missing", []string{"initializer-input", "missing-input"}, true})
+	}
 	// symbolic names carry no constraint: two inputs (and two axes of one input) sharing the name "N", and unnamed
 	// dimensions, accept different sizes
 	{
@@ -404,7 +416,39 @@ func checkC13(c *hx.Checker) {
 	}
 	c.ParallelFor(len(jobs), func(i int) {
 		j := jobs[i]
+		for _, t := range j.tags {
+			if t == "multi" || t == "initializer-input" {
+				j.mc.Repeat = 8 // signatures with several inputs are validated in map order
+			}
+		}
 		c.Case(hx.CaseInfo{ID: j.id, Tags: j.tags, NonTrivial: j.nt, Sample: map[string]any{"case": j.id, "expect": j.mc.Expect}}, func() *hx.Violation { return j.mc.run() })
+	})
+	// an initializer-backed graph input is still a declared input: every accessor reports it, consistently
+	c.Case(hx.CaseInfo{ID: "introspection/initializer-backed-input", Tags: []string{"introspection", "initializer-input"}, NonTrivial: true}, func() *hx.Violation {
+		mk := func(kind, d string) *hx.Violation {
+			return &hx.Violation{Kind: kind, Detail: d, Replay: map[string]any{"replay_kind": "introspection-init"}}
+		}
+		m, err := gonnx.NewModelFromBytes(mi)
+		if err != nil {
+			return mk("refused", err.Error())
+		}
+		names := append([]string{}, m.InputNames()...)
+		sort.Strings(names)
+		if fmt.Sprint(names) != "[a w]" {
+			return mk("wrong-introspection", fmt.Sprintf("InputNames = %v for declared inputs a, w (w has an initializer)", m.InputNames()))
+		}
+		shapes := m.InputShapes()
+		for _, n := range []string{"a", "w"} {
+			if sh, ok := shapes[n]; !ok || len(sh) != 2 || sh[0].Size != 2 || sh[1].Size != 3 {
+				return mk("wrong-introspection", fmt.Sprintf("InputShapes[%s] = %v, declared [2,3]", n, sh))
+			}
+			for ax, want := range []int{2, 3} {
+				if sz, err := m.InputDimSize(n, ax); err != nil || sz != want {
+					return mk("wrong-introspection", fmt.Sprintf("InputDimSize(%s,%d) = %d, %v; declared %d", n, ax, sz, err, want))
+				}
+			}
+		}
+		return hx.OK("introspection")
 	})
 	// ---------------- introspection: what the accessors report is what Run enforces
 	c.ParallelFor(len(sigs), func(i int) {
